@@ -204,6 +204,14 @@ def run(prop, tier, seed, replay=None):
                 steps.append(["put", "cal1", "a.ics", "@model:%d" % (2 if k % 2 else 1), {"fault": k}])
                 steps.append(["put", "cal1", "n%d.ics" % k, "@model:3", {"fault": k}])
                 steps.append(["delete", "cal1", "n%d.ics" % k, {"fault": (k % 9) + 1}])
+            # the same with files that open but cannot be written (a full disk), property
+            # rewrites included
+            for k in range(1, 9):
+                steps.append(["propupdate", "cal1", [["calcolor", "#00FF0%d" % k]], {"fault": -k}])
+                steps.append(["propupdate", "cal1", [["displayname", "Name %d" % k]], {"fault": k}])
+                steps.append(["put", "cal1", "a.ics", "@model:%d" % (2 if k % 2 else 1), {"fault": -k}])
+                steps.append(["put", "cal1", "w%d.ics" % k, "@model:3", {"fault": -k}])
+                steps.append(["delete", "cal1", "w%d.ics" % k, {"fault": -((k % 4) + 1)}])
             tid += 1
             jobs.append({"kind": "witness", "witness": steps, "cfg": cfg, "tid": tid, "dev": "fault-enumeration"})
         for k in range(10 if quick else 100):
